@@ -468,6 +468,9 @@ class Exec:
                 continue
             env = S.Env(self, self.store, dict(self.names), self.this_path, {})
             extra = dict(self.spec_lets)
+            if self.entry_env is not None:
+                from .calls import OldNS
+                extra['old'] = OldNS(self.entry_env)
             for ai, av in enumerate(args):
                 extra['arg%d' % ai] = env.wrap(av)
             for e in facts:
@@ -479,6 +482,9 @@ class Exec:
                 continue
             env = S.Env(self, self.store, dict(self.names), self.this_path, {})
             extra = dict(self.spec_lets)
+            if self.entry_env is not None:
+                from .calls import OldNS
+                extra['old'] = OldNS(self.entry_env)
             for ai, av in enumerate(args):
                 extra['arg%d' % ai] = env.wrap(av)
             for lab, e in items:
@@ -1071,6 +1077,12 @@ class Exec:
             return self.ev(b)
         if op in ('&&', '||'):
             x = self.tobool(self.ev(a), None)
+            if _has_call(b) and not self.dry:
+                # the right operand runs code (an inlined accessor, a bounds check): evaluated only on the paths where C++
+                # evaluates it
+                if self.decide(x if op == '&&' else z3.Not(x)):
+                    return self.tobool(self.ev(b), None)
+                return z3.BoolVal(op == '||')
             ver = self.version
             self.guards.append(x if op == '&&' else z3.Not(x))
             try:
